@@ -21,6 +21,12 @@ type IU =
 | IC2 of int*string
 | IC3
 
+type IOpt<T> =
+| ISome of T
+| INone
+
+type IBox<T> = {Val: T; Tag: string}
+
 let ipair a b =
   (a, b)
 
@@ -297,6 +303,19 @@ class Fn:
                 # an unapplied function-typed parameter is just an unconstrained value
                 pass
         parts += self.funlocals
+        # construction of generic user types, only as direct components of the result (their type arguments are never unified with
+        # another generic type: that corner is the candidate finding 13 of DESIGN section 6); two literals of the same generic record
+        # with different arguments must get independent instances
+        for _ in range(rng.choice([0, 0, 1, 2, 2])):
+            x = self.var() or rng.choice(self.params)
+            if x in self.funparams:
+                continue
+            if x in self.unused:
+                self.unused.remove(x)
+            if rng.random() < 0.5:
+                parts.append(('{Val=%s; Tag="t"}' % x, ["named", "IBox", [self.env[x]]]))
+            else:
+                parts.append(("ISome %s" % x, ["named", "IOpt", [self.env[x]]]))
         rng.shuffle(parts)            # the order in the result is independent of the order of the local definitions
         while len(parts) > 1:
             (a, ta), (b, tb) = parts.pop(), parts.pop()
@@ -316,5 +335,45 @@ class Fn:
         return "let %s %s =\n%s\n\n" % (self.name, ps, "\n".join("  " + l for l in self.body))
 
 
+class MergeFn(Fn):
+    """directed family: equivalence classes of parameters merged pairwise in a random order through slice literals, then a concrete
+    type arrives through one member (exercises class merging / propagation order in the resolver)"""
+
+    def build(self):
+        rng = self.rng
+        n = rng.randint(3, 6)
+        self.params = ["a%d" % i for i in range(n)]
+        self.ptypes = []
+        for p in self.params:
+            t = ["var", "p_" + p]
+            self.env[p] = t
+            self.ptypes.append(t)
+        lines, parts = [], []
+        for _ in range(rng.randint(2, n + 1)):
+            x, y = rng.sample(self.params, 2)
+            v = self.fresh("v")[1]
+            self.eq(self.env[x], self.env[y])
+            lines.append("let %s = [%s; %s]" % (v, x, y))
+            parts.append((v, sl(self.env[x])))
+        for _ in range(rng.randint(0, 2)):
+            x = rng.choice(self.params)
+            v = self.fresh("v")[1]
+            if rng.random() < 0.5:
+                self.eq(self.env[x], INT)
+                lines.append("let %s = %s + 1" % (v, x))
+                parts.append((v, INT))
+            else:
+                self.eq(self.env[x], STR)
+                lines.append("let %s = strings.Length %s" % (v, x))
+                parts.append((v, INT))
+        rng.shuffle(parts)
+        while len(parts) > 1:
+            (a, ta), (b, tb) = parts.pop(), parts.pop()
+            parts.append(("(%s, %s)" % (b, a), tup(tb, ta)))
+        self.body = lines + [parts[0][0]]
+        self.res = parts[0][1]
+        return self
+
+
 def generate(rng, n):
-    return [Fn(rng, i).build() for i in range(n)]
+    return [(MergeFn(rng, i) if i % 5 == 4 else Fn(rng, i)).build() for i in range(n)]
